@@ -13,6 +13,7 @@
 """
 import copy
 import itertools
+import os
 import warnings
 from fractions import Fraction as F
 
@@ -338,7 +339,10 @@ class Ref:
         elif vt == 'BINARY':
             for p in self.exprs():
                 p.substitute(v, F(-1), F(1))
+            self.flip_outcomes = []
             for c in self.cons.values():
+                if c.marked and v in c.p.lin:
+                    self.flip_outcomes.append('mark cleared (one-hot after the substitution)' if self.discrete(c) else 'mark kept (not one-hot after the substitution)')
                 if self.discrete(c) and v in c.p.lin:
                     c.marked = False
         else:
@@ -483,6 +487,10 @@ def rand_model(r, ref, force_kind=None, conflict=False):
         v = r.choice(cur) if cur and r.random() < .7 else r.choice(pool)
         if v not in labs:
             labs.append(v)
+    if len(cur) >= 2 and r.random() < .3:
+        # round 8: a window of consecutive model variables in DESCENDING model order (new labels, if any, stay in front)
+        n = r.randint(2, min(len(cur), 4)); s0 = r.randint(0, len(cur) - n)
+        labs = [v for v in labs if v not in cur][:1] + cur[s0:s0 + n][::-1]
     info = [pick_kind(r, ref, v) for v in labs]
     if force_kind:
         labs = [v for v, i in zip(labs, info) if i[0] == force_kind]
@@ -559,7 +567,28 @@ def model_args(md):
 def rand_terms(r, ref, bad=False):
     cur = list(ref.vars)
     ts = []
-    for _ in range(r.randint(0, 5)):
+    mode = r.random()
+    if len(cur) >= 2 and mode < .45:
+        # round 8: the expression mentions its variables in DESCENDING or INTERLEAVED model order (a window of consecutive
+        # model indices mostly): one linear term per variable fixes the private order, then products among them
+        n = r.randint(2, min(len(cur), 5))
+        if r.random() < .7:
+            s0 = r.randint(0, len(cur) - n); sel = cur[s0:s0 + n]
+        else:
+            sel = [cur[i] for i in sorted(r.sample(range(len(cur)), n))]
+        sel.reverse()
+        if mode < .15 and n >= 3:
+            sel = (sel[n // 2:] + sel[:n // 2]) if r.random() < .5 else [sel[i ^ 1] if (i ^ 1) < n else sel[i] for i in range(n)]
+        for v in sel:
+            ts.append((v, dy(r) if r.random() < .85 else 0.0))
+        for _ in range(r.randint(0, 3)):
+            u, v = r.choice(sel), r.choice(sel)
+            if ref.vars[u][0] == 'REAL' or ref.vars[v][0] == 'REAL':
+                continue
+            ts.append((u, v, dy(r)))
+        if r.random() < .3:
+            ts.append((dy(r, -8, 8, 2),))
+    for _ in range(r.randint(0, 5) if not ts else r.randint(0, 1)):
         k = r.choice([0, 1, 1, 2, 2]) if cur else 0
         if k == 0:
             ts.append((dy(r, -8, 8, 2),))
@@ -626,6 +655,21 @@ def repro_watch(hist, name, expect):
     return body
 
 
+_INFLIGHT = os.path.join(os.environ.get('VERIF_SCRATCH', '/var/tmp/dimod-verif'), f'c05-inflight-{os.getpid()}.py')
+
+
+def inflight(ctx, hist, doing='about to run'):
+    """the history that is running, as a script, kept in a file the crash handler of `harness/main.py` turns into the repro: if the
+    interpreter dies inside the call (abort / failed assertion / segfault in the native code) the concrete failing input is not lost"""
+    try:
+        with open(_INFLIGHT, 'w') as fh:
+            fh.write('# the interpreter died while running (or reading the model after) the LAST call of this history\n' + repro_unexpected(hist)
+                     + 'print("survived")\n')
+        ctx.mark(f'inflight-script: {_INFLIGHT} | {doing} `{hist[-1].splitlines()[-1][:300]}` (step {len(hist)} of a history on one CQM)')
+    except OSError:
+        pass
+
+
 def check_watched(ctx, orig, hist):
     """`orig` = (object, state, name in the repro script, canonical state, site, input class): it must still be in that state"""
     if orig is None or state(orig[0]) == orig[1]:
@@ -663,6 +707,179 @@ def state(cqm):
     return f"{vars_} # {show_expr(cqm.objective)} # {' '.join(cons)}"
 '''
 
+# ------------------------------------------------------------------------------------------------
+# every READ accessor of an expression view (round 8): the same source is executed here and in the repro scripts
+
+ACC_SRC = """
+def accessors(e, allvars):
+    def num(f):
+        try:
+            return rat(f())
+        except (ValueError, KeyError, IndexError) as ex:
+            return type(ex).__name__
+    vs = list(e.variables)
+    out = {}
+    out["variables"] = sorted(lab(v) for v in vs)
+    out["num_variables"] = e.num_variables
+    out["num_interactions"] = e.num_interactions
+    out["shape"] = tuple(e.shape)
+    out["is_linear"] = bool(e.is_linear())
+    out["offset"] = rat(e.offset)
+    out["get_linear"] = {lab(v): num(lambda: e.get_linear(v)) for v in allvars}
+    lin = e.linear
+    out["linear.items"] = sorted((lab(v), rat(b)) for v, b in lin.items())
+    out["len(linear)"] = len(lin)
+    out["linear[v]"] = {lab(v): num(lambda: lin[v]) for v in allvars}
+    out["iter_linear"] = sorted((lab(v), rat(b)) for v, b in e.iter_linear())
+    quad = e.quadratic
+    out["quadratic.items"] = sorted((tuple(sorted((lab(u), lab(v)))), rat(b)) for (u, v), b in quad.items())
+    out["len(quadratic)"] = len(quad)
+    out["iter_quadratic"] = sorted((tuple(sorted((lab(u), lab(v)))), rat(b)) for u, v, b in e.iter_quadratic())
+    near = vs + [v for v in allvars if v not in vs][:1]
+    out["get_quadratic"] = {(lab(u), lab(v)): num(lambda: e.get_quadratic(u, v)) for u in near for v in near}
+    out["get_quadratic default"] = {(lab(u), lab(v)): num(lambda: e.get_quadratic(u, v, default=0.375)) for u in near for v in near}
+    out["quadratic[u,v]"] = {(lab(u), lab(v)): num(lambda: quad[u, v]) for u in near for v in near}
+    adj = e.adj
+    out["adj"] = {lab(u): sorted((lab(w), rat(b)) for w, b in adj[u].items()) for u in near}
+    out["adj.keys"] = sorted(lab(u) for u in adj)
+    # the private order itself is an implementation detail (the Lean model has it); it must be ONE order in every accessor
+    out["one variable order in variables / linear / iter_linear / adj"] = (
+        [lab(v) for v in vs] == [lab(v) for v in lin] == [lab(v) for v, _ in e.iter_linear()] == [lab(u) for u in adj])
+    out["degree"] = {lab(v): e.degree(v) for v in allvars}
+    out["iter_neighborhood"] = {lab(v): sorted((lab(w), rat(b)) for w, b in e.iter_neighborhood(v)) for v in allvars}
+    return out
+"""
+_accns = dict(rat=rat, lab=lab)
+exec(ACC_SRC, _accns)
+accessors = _accns['accessors']
+
+
+def ref_accessors(ref, p):
+    """what `accessors` must return for the label-keyed polynomial `p` of the reference `ref` (definition: the coefficient of a
+    model variable the expression does not mention is 0 and it has no neighbours; an absent product has no interaction)"""
+    allvars = list(ref.vars)
+    vs = list(p.order)
+    nb = {v: [] for v in allvars}
+    items = []
+    for k, b in p.quad.items():
+        ks = sorted(lab(v) for v in k)
+        items.append(((ks[0], ks[-1]), rat(b)))
+        kl = list(k)
+        if len(kl) == 1:
+            nb[kl[0]].append((lab(kl[0]), rat(b)))
+        else:
+            nb[kl[0]].append((lab(kl[1]), rat(b))); nb[kl[1]].append((lab(kl[0]), rat(b)))
+    items.sort()
+    out = {}
+    out["variables"] = sorted(lab(v) for v in vs)
+    out["num_variables"] = len(vs)
+    out["num_interactions"] = len(p.quad)
+    out["shape"] = (len(vs), len(p.quad))
+    out["is_linear"] = not p.quad
+    out["offset"] = rat(p.off)
+    out["get_linear"] = {lab(v): rat(p.lin.get(v, F(0))) for v in allvars}
+    out["linear.items"] = sorted((lab(v), rat(p.lin[v])) for v in vs)
+    out["len(linear)"] = len(vs)
+    out["linear[v]"] = dict(out["get_linear"])
+    out["iter_linear"] = list(out["linear.items"])
+    out["quadratic.items"] = items
+    out["len(quadratic)"] = len(items)
+    out["iter_quadratic"] = list(items)
+    near = vs + [v for v in allvars if v not in p.lin][:1]
+
+    def gq(u, v, absent, key=False):
+        if u == v and ref.vars[u][0] in ('BINARY', 'SPIN'):
+            return 'KeyError' if key else 'ValueError'
+        k = frozenset((u, v))
+        return rat(p.quad[k]) if k in p.quad else absent
+    out["get_quadratic"] = {(lab(u), lab(v)): gq(u, v, 'ValueError') for u in near for v in near}
+    out["get_quadratic default"] = {(lab(u), lab(v)): gq(u, v, rat(0.375)) for u in near for v in near}
+    out["quadratic[u,v]"] = {(lab(u), lab(v)): gq(u, v, 'KeyError', key=True) for u in near for v in near}
+    out["adj"] = {lab(u): sorted(nb[u]) for u in near}
+    out["adj.keys"] = sorted(lab(v) for v in vs)
+    out["one variable order in variables / linear / iter_linear / adj"] = True
+    out["degree"] = {lab(v): len(nb[v]) for v in allvars}
+    out["iter_neighborhood"] = {lab(v): sorted(nb[v]) for v in allvars}
+    return out
+
+
+def poly_value(p, x):
+    e = p.off
+    for v, b in p.lin.items():
+        e += b * x[v]
+    for k, b in p.quad.items():
+        ks = list(k)
+        e += b * x[ks[0]] * x[ks[-1]]
+    return e
+
+
+def order_class(ref, p):
+    """the expression's private variable order relative to the model's order"""
+    pos = {v: i for i, v in enumerate(ref.vars)}
+    idx = [pos[v] for v in p.order]
+    if len(idx) < 2:
+        return 'fewer than 2 variables'
+    if idx == sorted(idx):
+        return 'ascending'
+    if idx == sorted(idx, reverse=True):
+        return 'descending'
+    return 'interleaved'
+
+
+def adjacent_descending(ref, p, below=None):
+    """some variable with model index k+1 is listed before the one with index k (both above `below` when given)"""
+    pos = {v: i for i, v in enumerate(ref.vars)}
+    idx = [pos[v] for v in p.order]
+    lo = -1 if below is None else pos[below]
+    return any(a == b + 1 and b > lo for i, a in enumerate(idx) for b in idx[i + 1:])
+
+
+def check_accessors(ctx, r, cqm, ref, hist, site, name='cqm'):
+    """after a step: every read accessor of the objective and of every constraint against the reference polynomials,
+    and energies of two random samples over all model variables.  Returns False after reporting a failure."""
+    allvars = list(ref.vars)
+    xs = []
+    for _ in range(2):
+        x = {}
+        for v, (vt, lo, hi) in ref.vars.items():
+            x[v] = r.choice([-1, 1]) if vt == 'SPIN' else (r.randint(0, 1) if vt == 'BINARY' else r.randint(-2, 3))
+        xs.append(x)
+    for which, p in [(None, ref.obj)] + [(l, c.p) for l, c in ref.cons.items()]:
+        esrc = f'{name}.objective' if which is None else f'{name}.constraints[{which!r}].lhs'
+        e = cqm.objective if which is None else cqm.constraints[which].lhs
+        try:
+            got = accessors(e, allvars)
+        except Exception as ex:  # noqa
+            got = {'raised': f'{type(ex).__name__}: {ex}'}
+        want = ref_accessors(ref, p)
+        if got != want:
+            bad = sorted(k for k in set(got) | set(want) if got.get(k) != want.get(k))
+            if 'raised' in got:
+                bad = ['raised']; want = dict(want, raised=None)
+            ctx.fail('property', site, 'read accessors of an expression: ' + ', '.join(bad[:4]),
+                     f'after the history, `{esrc}` (private order {order_class(ref, p)}) answers {bad[0]} = {got.get(bad[0])!r}; '
+                     f'the polynomial it stands for gives {want.get(bad[0])!r}',
+                     repro=repro_unexpected(hist) + SHOW_SRC + ACC_SRC + f'got = accessors({esrc}, list({name}.variables))\nwant = {want!r}\n'
+                     'for k in want:\n    if got[k] != want[k]: print(k, got[k], "expected", want[k])\nassert got == want\n',
+                     detail=dict(history=list(hist), expression=esrc, differing=bad, impl={k: repr(got.get(k)) for k in bad}, spec={k: repr(want.get(k)) for k in bad}))
+            return False
+        if allvars:
+            try:
+                en = [F(float(t)) for t in e.energies((([[x[v] for v in allvars] for x in xs]), allvars))]
+                en1 = F(float(e.energy(xs[0])))
+            except Exception as ex:  # noqa
+                en, en1 = f'{type(ex).__name__}: {ex}', None
+            wen = [poly_value(p, {v: F(t) for v, t in x.items()}) for x in xs]
+            if en != wen or en1 != wen[0]:
+                ctx.fail('property', site, 'energies of an expression',
+                         f'after the history, `{esrc}.energies` of {xs!r} = {en!r} (energy of the first: {en1!r}); the polynomial gives {[str(t) for t in wen]}',
+                         repro=repro_unexpected(hist) + f'_v = {allvars!r}\n_xs = {xs!r}\ngot = [float(t) for t in {esrc}.energies(([[x[v] for v in _v] for x in _xs], _v))]\n'
+                         f'print(got)\nassert got == {[float(t) for t in wen]!r}\nassert float({esrc}.energy(_xs[0])) == {float(wen[0])!r}\n',
+                         detail=dict(history=list(hist), expression=esrc))
+                return False
+    return True
+
+
 OPS = (['addvar'] * 3 + ['objm'] * 2 + ['objt'] + ['conm'] * 4 + ['conc'] * 2 + ['cont'] * 2 + ['discm', 'discc', 'discv', 'discv']
        + ['rmvar'] * 3 + ['fix'] * 3 + ['fixmany', 'fixcopy', 'fixcopy'] + ['flip'] * 2 + ['cvt'] * 2 + ['s2b'] + ['rmcon'] * 2
        + ['relv'] * 2 + ['relc'] + ['setb'] + ['vaddl', 'vsetl', 'vaddq', 'vaddq', 'vrmi', 'vrmv', 'voff', 'vmark', 'vweight']
@@ -690,6 +907,7 @@ def one_history(ctx, r, nops, out):
     out.append(dict(line='new', expect='ok ' + state(cqm), k='new', hist=()))
     ncon = [0]
     views = {}       # id(RCon) -> (view object, RCon)
+    held = [cqm, cqm.variables, cqm.constraints, cqm.objective]   # objects REACHED from the model at the start: they must keep showing it
     orig = None      # (object, state string, …) of a model that was copied / is a copy and must stay as it was (`check_watched`)
     nw = [0]
 
@@ -698,9 +916,14 @@ def one_history(ctx, r, nops, out):
         return r.choice([f'c{ncon[0]}', ncon[0] + 100, ('c', ncon[0])])
 
     nsteps = r.randint(1, nops)
+    pending_flip = None
     seed_ops = [r.choice(['addvar', 'addvar', 'objm', 'conm', 'conc', 'cont', 'discv']) for _ in range(min(nsteps, r.randint(0, 6)))]
     for step in range(nsteps):
         k = seed_ops[step] if step < len(seed_ops) else r.choice(OPS)
+        if pending_flip is not None and pending_flip in ref.vars and r.random() < .7:
+            k = 'flip'      # the SECOND flip of a variable of a marked constraint (restores the one-hot form: the mark is cleared)
+        else:
+            pending_flip = None
         vs = list(ref.vars)
         cls_ = list(ref.cons)
         anyv = lambda: r.choice(vs) if vs and r.random() < .93 else 'zz'   # noqa: E731
@@ -841,7 +1064,26 @@ def one_history(ctx, r, nops, out):
                 try_new = True
                 spec = lambda: ref2.fix_copy(fx)   # noqa: E731
         elif k == 'flip':
-            v = anyv(); line = f'flip {lab(v)}'; code = f'cqm.flip_variable({v!r})'
+            v = anyv()
+            if r.random() < .5:
+                # round 8: aim at the branch of the Python `flip_variable` that CLEARS a mark — a variable whose flip makes a marked
+                # constraint one-hot again (e.g. the second flip of a variable of a discrete constraint), else any variable of a marked one
+                cand = []; anym = []
+                for c_ in ref.cons.values():
+                    if c_.marked:
+                        for u_ in c_.p.order:
+                            if ref.vars[u_][0] == 'BINARY':
+                                anym.append(u_)
+                                t_ = ref.copy(); t_.flip(u_)
+                                if any(o.startswith('mark cleared') for o in t_.flip_outcomes):
+                                    cand.append(u_)
+                if cand or anym:
+                    v = r.choice(cand) if cand and r.random() < .7 else r.choice(anym)
+            if pending_flip is not None:
+                v, pending_flip = pending_flip, None
+            elif v in ref.vars and any(c_.marked and v in c_.p.lin for c_ in ref.cons.values()):
+                pending_flip = v
+            line = f'flip {lab(v)}'; code = f'cqm.flip_variable({v!r})'
             spec = lambda: ref2.flip(v)   # noqa: E731
         elif k == 'cvt':
             v = anyv(); vt = r.choice(['BINARY', 'SPIN', 'INTEGER', 'INTEGER', 'REAL']); line = f'cvt {vt} {lab(v)}'
@@ -956,6 +1198,8 @@ def one_history(ctx, r, nops, out):
             cqm = new
             views = {}
             ctx.case(('deepcopy', before), nontrivial=True)
+            if not check_accessors(ctx, r, cqm, ref, hist, 'CQM.__deepcopy__'):
+                return
             continue
         elif k == 'cpapi':
             # every call documented to RETURN A COPY (relabel_variables / spin_to_binary / fix_variables with inplace=False),
@@ -1023,6 +1267,8 @@ def one_history(ctx, r, nops, out):
                          detail=dict(history=list(hist), call=call, impl=state(new, canon=True), spec=ref2.show(canon=True)))
                 return
             ctx.case(('cpapi', call, before), nontrivial=True)
+            if not check_accessors(ctx, r, new, ref2, hist + [f'new = {call}'], site, name='new'):
+                return
             if dline is not None and r.random() < .6:
                 # the history continues on the copy; the original is watched
                 hist.append(f'{name} = cqm; cqm = {call}')
@@ -1083,6 +1329,8 @@ def one_history(ctx, r, nops, out):
                          repro=repro_of(hist, ref2.show(canon=True), 'state after add_variables'), detail=dict(history=list(hist), impl=state(cqm, canon=True), spec=ref2.show(canon=True)))
                 return
             ref = ref2
+            if not check_accessors(ctx, r, cqm, ref, hist, 'CQM.add_variables'):
+                return
             # the Lean model follows with one `addvar` per variable that was processed (the last line carries the comparison)
             done = labs_[:nadded + (1 if sout != 'ok' else 0)]
             for j, v in enumerate(done):
@@ -1142,6 +1390,8 @@ def one_history(ctx, r, nops, out):
                          repro=None, detail=dict(history=list(hist), impl=state(cqm, canon=True), spec=ref2.show(canon=True), mapping=repr(mp)))
                 return
             ref = ref2
+            if not check_accessors(ctx, r, cqm, ref, hist, 'CQM.substitute_self_loops'):
+                return
             for j, ln in enumerate(plines):
                 out.append(dict(line=ln, expect=(f'ok {state(cqm)}' if j == len(plines) - 1 else None), k='ssl', hist=tuple(hist)))
             continue
@@ -1172,6 +1422,7 @@ def one_history(ctx, r, nops, out):
         # ---- run on the real object
         before = state(cqm)
         hist.append(code)
+        inflight(ctx, hist)
         ns = dict(cqm=cqm, BQM=BQM, QM=QM, np=np, copy=copy)
         outcome = 'ok'
         try:
@@ -1184,7 +1435,13 @@ def one_history(ctx, r, nops, out):
                      f'`{code.splitlines()[-1]}` raised {type(e).__name__}: {e}',
                      repro=repro_unexpected(hist), detail=dict(history=list(hist)))
             return
-        after = state(cqm)
+        try:
+            after = state(cqm)
+        except Exception as e:  # noqa — reading the model must never raise
+            ctx.fail('property', classify(k, line, ref, None), 'reading the model raises',
+                     f'after `{code.splitlines()[-1]}` ({outcome}) reading the variables / terms of the model raised {type(e).__name__}: {e}',
+                     repro=repro_unexpected(hist) + SHOW_SRC + 'print(state(cqm))\n', detail=dict(history=list(hist)))
+            return
         tgt = ns['new'] if (try_new and outcome == 'ok') else cqm
         srcs = ''
         if k in ('objm', 'conm', 'conc', 'discm', 'discc'):
@@ -1223,6 +1480,7 @@ def one_history(ctx, r, nops, out):
         want = res.show(canon=True) if (try_new and sout == 'ok') else ref2.show(canon=True)
         ctx.case((line, before), nontrivial=(after != before) or outcome != 'ok' or bool(try_new),
                  sample=dict(history=list(hist)) if len(hist) == 5 else None)
+        inflight(ctx, hist, 'reading the model after')
         site = classify(k, line, ref, None)
         if (outcome == 'ok') != (sout == 'ok'):
             sc = site_class or (site, 'accept/reject')
@@ -1242,6 +1500,7 @@ def one_history(ctx, r, nops, out):
                      repro=repro_of(hist, want, 'state differs from the list-of-polynomials result') if not try_new else None,
                      detail=dict(history=list(hist), impl=shown, spec=want))
             return
+        ref_before = ref
         if not try_new:
             ref = ref2
         # ---- derived observers against the specification
@@ -1258,6 +1517,36 @@ def one_history(ctx, r, nops, out):
                      f'(num_constraints, num_soft_constraints, is_linear, num_biases, len(variables), num_variables) = {got_obs}, on the list of polynomials {want_obs}',
                      repro=repro_unexpected(hist) + f'got = (cqm.num_constraints(), cqm.num_soft_constraints(), bool(cqm.is_linear()), cqm.num_biases(), len(cqm.variables))\nprint(got)\nassert got == {want_obs[:5] if want_obs else None!r}\n',
                      detail=dict(history=list(hist)))
+            return
+        # ---- round 8: every read accessor of every expression, and energies, against the reference polynomials
+        if outcome == 'ok' and len(ref_before.vars) > len(ref.vars) and not try_new:
+            gone = [v for v in ref_before.vars if v not in ref.vars]
+            for oc in {order_class(ref_before, p) for p in ref_before.exprs()}:
+                ctx.tick(f'variable removed from the model while an expression has private order: {oc}')
+            if any(adjacent_descending(ref_before, p, below=v) for p in ref_before.exprs() for v in gone):
+                ctx.tick('variable removed BELOW an expression listing model variable k+1 before k')
+        if k == 'flip' and outcome == 'ok':
+            for oc in getattr(ref, 'flip_outcomes', []):
+                ctx.tick('flip of a BINARY variable of a marked constraint: ' + oc)
+        if not check_accessors(ctx, r, cqm, ref, hist, site):
+            return
+        if try_new and outcome == 'ok' and sout == 'ok':
+            if not check_accessors(ctx, r, ns['new'], res, hist, site, name='new'):
+                return
+        # ---- round 8: `cqm.variables`, `cqm.constraints`, `cqm.objective` obtained BEFORE the history still show the model
+        if held[0] is not cqm:
+            held = [cqm, cqm.variables, cqm.constraints, cqm.objective]
+        try:
+            hv = ([lab(v) for v in held[1]], len(held[1]), [lab(l) for l in held[2]], len(held[2]), show_expr(held[3], canon=True))
+            nv = ([lab(v) for v in cqm.variables], len(cqm.variables), [lab(l) for l in cqm.constraints], len(cqm.constraints), show_expr(cqm.objective, canon=True))
+        except Exception as e:  # noqa
+            hv, nv = f'{type(e).__name__}: {e}', None
+        if hv != nv:
+            ctx.fail('property', site, 'objects obtained from the model earlier (variables / constraints / objective) are stale',
+                     f'`_v = cqm.variables; _c = cqm.constraints; _o = cqm.objective` taken when the model was created show {hv!r} after the history; fresh ones show {nv!r}',
+                     repro='_HELD = True\n' + repro_unexpected(hist).replace('cqm = CQM()\n', 'cqm = CQM()\n_v = cqm.variables; _c = cqm.constraints; _o = cqm.objective\n', 1)
+                     + 'assert list(_v) == list(cqm.variables) and list(_c) == list(cqm.constraints) and _o.is_equal(cqm.objective)\n',
+                     detail=dict(history=list(hist), held=repr(hv), fresh=repr(nv)))
             return
         # ---- views taken earlier keep pointing at their constraint; removed ones are invalid
         for key, (view, _) in list(views.items()):
@@ -1283,7 +1572,7 @@ def one_history(ctx, r, nops, out):
 
 def run(ctx):
     r = ctx.rng
-    nhist = ctx.scale(1400, 30000)
+    nhist = ctx.scale(700, 12000)
     ctx.rule = ('random histories (<= 30 ops) of public CQM mutators: add_variable, set_objective (model / iterable), add_constraint '
                 '(model, comparison, iterable; copy and move; hard and soft, both penalties), add_discrete (3 forms), remove/fix/flip/'
                 'change_vartype/relabel variables, fix_variables in place and copying, spin_to_binary, remove_constraint (cascade), '
@@ -1296,6 +1585,10 @@ def run(ctx):
         one_history(ctx, r, 30, out)
         if len([f for f in ctx.failures if f['kind'] == 'property']) >= 12:
             break
+    try:
+        os.unlink(_INFLIGHT)
+    except OSError:
+        pass
     # deep copies continue the same model line: the driver needs no op for them
     lines = [o['line'] for o in out]
     got = run_driver('cqmdriver', lines)
